@@ -12,7 +12,7 @@ import ast
 import z3
 
 from pyvc import prop, theory as th
-from pyvc.values import SV, SObj, SClass, SNamespace, SFunc, T, INT, BOOL, Undecided, lift, coerce, zsort, seq_len, seq_arr, seq_mk, opt_is_none
+from pyvc.values import SV, SObj, SClass, SNamespace, SFunc, T, INT, BOOL, Undecided, lift, coerce, zsort, seq_len, seq_arr, seq_mk, opt_is_none, parse_type
 from pyvc.engine import Contract, LoopSpec
 from pyvc.verify import World, ClassModel, verify_function
 from . import depgraph_native as dn
@@ -275,8 +275,50 @@ def c_dependees():
         signals={'ValueError': 'not has_node(self, node)'})
 
 
+# ---- ownership: a graph owns its node list (C16: "copies are independent", the plain-graph mirror has its own nodes)
+def own_world():
+    w = make_world()
+
+    def rlist_new(I, args, kwargs):
+        # assumed contract of RList(iterable): a NEW list holding the elements of the iterable in order
+        if not args:
+            return I.alloc('RList', {'seq': I.world.lib.empty_of(I, T('Seq', NODE))})
+        src = args[0]
+        if isinstance(src, SObj) and src.cls == 'RList':
+            return I.alloc('RList', {'seq': I.getfield(src, 'seq')})
+        if isinstance(src, SV) and src.typ == T('Seq', NODE):
+            return I.alloc('RList', {'seq': src})
+        raise Undecided('RList(...) of this argument')
+    w.construct_hooks['RList'] = rlist_new
+
+    def complete(I, dct):
+        # assumed contract of DepGraph._complete (verified by the bounded histories): a new dictionary, same keys plus every value, fresh sets
+        out = I.fresh(parse_type(EDGES) if isinstance(EDGES, str) else EDGES, 'completed_edges')
+        return out
+    w.class_models['DepGraph'].c__complete = lambda I, cls: complete
+    return w
+
+
+def c_init():
+    return Contract(DG, 'DepGraph.__init__', params={'nodes': 'Obj:RList', 'edges': EDGES}, signals={},
+                    ensures=[('C16-the-graph-owns-its-node-list', 'self._nodes is not nodes'),
+                             ('C16-the-node-list-holds-the-given-nodes-in-order', 'same(self._nodes.seq, nodes.seq) and same(nodes.seq, old(nodes.seq))')],
+                    variant='from-a-node-list')
+
+
+def init_setup(I, scope):
+    scope.set('self', I.alloc('DepGraph', {}))
+
+
+def c_copy():
+    return Contract(DG, 'DepGraph.copy', params={'self': 'Obj:DepGraph'}, signals={},
+                    ensures=[('C16-a-copy-has-its-own-node-list', 'returned._nodes is not self._nodes and returned is not self'),
+                             ('C16-a-copy-holds-the-same-nodes-in-order', 'same(returned._nodes.seq, self._nodes.seq)'),
+                             ('C16-copying-leaves-the-graph-untouched', REP_SAME)])
+
+
 def units(tier):
-    return ['contains', 'add_node', 'add_dependency', 'remove_dependency', 'remove_node', 'rlist_histories', 'histories', 'algorithms', 'flatten']
+    return ['contains', 'add_node', 'add_dependency', 'remove_dependency', 'remove_node', 'init', 'copy', 'rlist_histories', 'histories', 'algorithms', 'flatten']
 
 
 def _replay_native(name, inp):
@@ -304,6 +346,21 @@ def run_unit(unit, tier, seed, known):
             return {'bounded': [{'name': unit, 'bound': f'did not finish within {limit} s', 'evaluations': 1, 'distinct': 1,
                                  'failures': [{'input': {'unit': unit}, 'observed': f'the real code did not come back within {limit} s on some case of this unit',
                                                'expected': 'every operation terminates'}]}]}
+    if unit == 'init':
+        res = verify_function(own_world(), c_init(), setup=init_setup)
+        return {'functions': [prop.discharge(res, tier, ID, lambda m, r: {'note': 'see model text'}, _replay_native)]}
+    if unit == 'copy':
+        w = own_world()
+        ci = c_init()
+
+        def new_graph(I, args, kwargs):
+            # the constructed graph: fresh fields, constrained by the contract of __init__ (verified by unit init)
+            g = I.alloc('DepGraph', {'_nodes': I.alloc('RList', {'seq': I.fresh(T('Seq', NODE), 'new_nodes')}), '_edges': I.fresh(parse_type(EDGES), 'new_edges')})
+            I.apply_contract(ci, list(args), dict(kwargs), recv=g)
+            return g
+        w.construct_hooks['DepGraph'] = new_graph
+        res = verify_function(w, c_copy())
+        return {'functions': [prop.discharge(res, tier, ID, lambda m, r: {'note': 'see model text'}, _replay_native)]}
     w = make_world()
     w.add(c_contains())
     w.add(c_add_node())
